@@ -69,20 +69,44 @@ class InfraError(Exception):
     """Build / infrastructure failure: exit 2, never a violation."""
 
 
+def cargo_cmd_env():
+    """(path of a real cargo binary, environment to run it in)."""
+    env = dict(os.environ, CARGO_NET_OFFLINE="true")
+    # `cargo` on PATH is a rustup proxy that needs HOME-relative settings; HOME
+    # has been redirected to the scratch directory (and may be different again
+    # in the environment this runs in), so locate the toolchain directly.
+    homes = [h for h in (os.environ.get("VERIF_REAL_HOME"), _REAL_HOME, "/root") if h]
+    cargo = "cargo"
+    for h in homes:
+        rh = os.path.join(h, ".rustup")
+        if not os.path.isdir(os.path.join(rh, "toolchains")):
+            continue
+        tcs = sorted(os.listdir(os.path.join(rh, "toolchains")))
+        pref = [t for t in tcs if t.startswith("stable")] + [t for t in tcs if not t.startswith("stable")]
+        for t in pref:
+            c = os.path.join(rh, "toolchains", t, "bin", "cargo")
+            if os.path.exists(c):
+                cargo = c
+                env["RUSTUP_HOME"] = rh
+                env["CARGO_HOME"] = os.path.join(h, ".cargo")
+                env["RUSTUP_TOOLCHAIN"] = t
+                env["PATH"] = os.path.dirname(c) + os.pathsep + env.get("PATH", "")
+                break
+        if cargo != "cargo":
+            break
+    return cargo, env
+
+
 def build_rust(packages):
     """cargo build --offline the given -py packages from /repo's working tree
     and pre-load the fresh .so under the module name breezy imports, so that
     the prebuilt (possibly stale) .so files in /repo/breezy are not used."""
     if not packages:
         return
-    env = dict(os.environ, CARGO_NET_OFFLINE="true")
-    # cargo is a rustup proxy: it needs the real toolchain directories even
-    # though HOME has been redirected to the scratch directory
-    env.setdefault("RUSTUP_HOME", os.path.join(_REAL_HOME, ".rustup"))
-    env.setdefault("CARGO_HOME", os.path.join(_REAL_HOME, ".cargo"))
+    cargo, env = cargo_cmd_env()
     for pkg in packages:
         r = subprocess.run(
-            ["cargo", "build", "--offline", "-q", "-p", pkg],
+            [cargo, "build", "--offline", "-q", "-p", pkg],
             cwd=REPO, env=env, capture_output=True, text=True)
         if r.returncode != 0:
             raise InfraError("cargo build -p %s failed:\n%s" % (pkg, r.stderr[-3000:]))
